@@ -254,7 +254,9 @@ impl<'a> Import<'a, &'a str, PathBuf> {
         if !rel.is_relative() {
             Err("non-relative path")?
         }
-        rel.set_extension(ext);
+        if rel.extension().is_none() {
+            rel.set_extension(ext);
+        }
 
         #[cfg(target_os = "windows")]
         let home = "USERPROFILE";
